@@ -13,8 +13,8 @@ COMMON_NOTE = ("Trusted: Coq 8.16.1 kernel and VM (no native_compute); axioms pe
 CHECKS = {
  "C01": dict(
   technique="Coq proof (lia over explicit wrap-around on definitions regenerated from the Rust source by a translator; Lucas primality certificate and Fermat for inversion; ring identities modulo x^3-x+1) + differential correspondence of the extracted model against the compiled code",
-  text="Theorems C01_* (props/C01.v) hold for ALL inputs: Montgomery reduction, new/value, add/sub/mul/neg exact and canonical, unique representation, From<u128>/From<i64>/to_i64 exact with no overflow, p prime, mod_pow = repeated product, inverse = the unique inverse (Fermat), extension-field add/sub/neg/mul/scalar-mul = polynomial arithmetic mod x^3-x+1. Straight-line functions are re-translated from the current source on every run and re-proved; loops and XFieldElement are hand models tied by a two-profile (release / overflow-checked) differential run on a boundary grid plus random inputs.",
-  note="XFieldElement inverse proved only for elements of non-zero norm (irreducibility of x^3-x+1 not proved: C01_xinverse_partial); batch_inversion and XFE mod_pow are correspondence-only."),
+  text="Theorems C01_* (props/C01.v) hold for ALL inputs: Montgomery reduction, new/value, add/sub/mul/neg exact and canonical, unique representation, From<u128>/From<i64>/to_i64 exact with no overflow, p prime, mod_pow = repeated product, inverse = the unique inverse (Fermat), batch inversion = point-wise inversion (panic on a zero), extension-field add/sub/neg/mul/scalar-mul = polynomial arithmetic mod x^3-x+1, x^3-x+1 has no root mod p (Frobenius + Bezout certificate) so every non-zero extension element has the inverse the model returns. Straight-line functions are re-translated from the current source on every run and re-proved; loops and XFieldElement are hand models tied by a two-profile (release / overflow-checked) differential run on a boundary grid plus random inputs.",
+  note="XFieldElement::inverse is modelled by the closed-form adjugate (the code runs polynomial xgcd: tied by correspondence; both are THE inverse by C01_xinverse + uniqueness); XFE mod_pow_u64 and XFE batch_inversion are correspondence-only; uniqueness of XFE inverses follows from the ring laws but is not pinned."),
  "C20": dict(
   technique="Coq proof (round-trip, strictness, uniqueness and mixed-radix order theorems about a hand-written value-level model of every conversion) + differential correspondence through the real API incl. serde_json and bincode",
   text="54 theorems C20_* (props/C20.v), all inputs: bytes/hex/decimal-string/BigUint/Vec/serde round trips, accept-iff characterisations (strict parsers), cmp = numeric order of the base-p value, XFE<->Digest invertible exactly on digests with two trailing zeros. The model is hand-written and tied to the code by 52k (quick) / 696k (thorough) cases x 2 build profiles.",
